@@ -94,11 +94,55 @@ func planC01(tier string, seed int64) (*Plan, error) {
 }
 
 func planC19(tier string, seed int64) (*Plan, error) {
-	p := &Plan{MustReach: []string{"done"}}
-	for n := 0; n <= 3; n++ {
+	p := &Plan{MustReach: []string{"done", "valid-utf8"}}
+	thorough := tier == "thorough"
+	nEsc, nURL, nRes, nLink, kHex, kDec, kEnt := 4, 3, 3, 2, 3, 4, 2
+	if thorough {
+		nEsc, nURL, nRes, nLink, kHex, kDec, kEnt = 6, 4, 4, 3, 5, 7, 3
+	}
+	for n := 0; n <= nEsc; n++ {
 		p.Jobs = append(p.Jobs, job("H_c19_escape_html", "n", n))
+	}
+	for n := 0; n <= nURL; n++ {
 		p.Jobs = append(p.Jobs, job("H_c19_urlescape", "n", n))
 	}
-	p.Bounds = map[string]interface{}{"S(L)": "inputs of length 0..3, all 256 byte values"}
+	// longer inputs over an alphabet that stresses the %XX and multi-byte paths
+	for n := nURL + 1; n <= nURL+2; n++ {
+		p.Jobs = append(p.Jobs, job("H_c19_urlescape", "n", n, "alpha", "%4g \xc3\xa9<"))
+	}
+	for pre := 0; pre <= 1; pre++ {
+		for post := 0; post <= 2; post++ {
+			p.Jobs = append(p.Jobs, job("H_c19_urlescape_triple", "pre", pre, "post", post))
+		}
+	}
+	for n := 0; n <= nRes; n++ {
+		p.Jobs = append(p.Jobs, job("H_c19_resolvers_utf8", "n", n))
+	}
+	p.Jobs = append(p.Jobs, job("H_c19_resolvers_utf8", "n", nRes+2, "alpha", "&#x1;\\a\xc3\xa9"))
+	for k := 1; k <= kHex; k++ {
+		p.Jobs = append(p.Jobs, job("H_c19_numref_hex", "k", k))
+	}
+	for k := 1; k <= kDec; k++ {
+		p.Jobs = append(p.Jobs, job("H_c19_numref_dec", "k", k))
+		p.Jobs = append(p.Jobs, job("H_c19_numref_dec", "k", k, "leadzero", 1))
+	}
+	for k := 1; k <= kEnt; k++ {
+		p.Jobs = append(p.Jobs, job("H_c19_entity_name", "k", k))
+	}
+	for n := 0; n <= nLink; n++ {
+		p.Jobs = append(p.Jobs, job("H_c19_linkref", "n", n))
+	}
+	p.Jobs = append(p.Jobs, job("H_c19_linkref", "n", nLink+2, "alpha", "aA \t\xc3\x9f"))
+	p.Jobs = append(p.Jobs, job("H_c19_bytesfilter", "keys", 6, "base", 3))
+	p.Jobs = append(p.Jobs, job("H_c19_bytesfilter", "keys", 5, "base", 2, "klen", 2, "alpha", "a!"))
+	p.Bounds = map[string]interface{}{
+		"EscapeHTML":               fmt.Sprintf("all byte strings of length 0..%d (256 values per byte)", nEsc),
+		"URLEscape(false)":         fmt.Sprintf("all byte strings of length 0..%d; length %d..%d over {%%,4,g,space,C3,A9,<}; %%XX triples with symbolic hex digits and 0..1 / 0..2 symbolic lower-case neighbours", nURL, nURL+1, nURL+2),
+		"resolvers":                fmt.Sprintf("all byte strings of length 0..%d; length %d over {&,#,x,1,;,\\,a,C3,A9}; &#x h{1..%d} ; and &# d{1..%d} ; with symbolic digits; & name{1..%d} ; with symbolic letters", nRes, nRes+2, kHex, kDec, kEnt),
+		"ToLinkReference":          fmt.Sprintf("all byte strings of length 0..%d plus length %d over {a,A,space,tab,C3,9F}; symbolic per-letter case flips and whitespace-run rewriting", nLink, nLink+2),
+		"BytesFilter":              "histories NewBytesFilter; Add×base; Extend; Extend; Add with 5-6 symbolic keys over a 5-byte alphabet in which four bytes share a hash bucket (1-byte keys), and 2-byte keys over {a,!}",
+		"outside":                  "longer inputs; keys longer than 2 bytes; histories longer than 6 operations",
+	}
+	p.Rule = "one job per (function, length/template); all paths of each job explored"
 	return p, nil
 }
